@@ -49,17 +49,15 @@ fn max_code(len: u8) -> u32 {
 }
 
 /// first-byte ranges per code length: makes the code set prefix-free across lengths
-pub fn first_byte_range(len: u8) -> (u8, u8) {
-    match len {
-        1 => (0x00, 0x3F),
-        2 => (0x40, 0x7F),
-        3 => (0x80, 0xBF),
-        _ => (0xC0, 0xFF),
-    }
+/// The first bytes 00..FF are split into four quarters, one per code length, so that code sets are prefix-free
+/// across lengths. Which quarter a length gets is rotated per CMap (`rot`): long codes may begin with 00 bytes.
+pub fn first_byte_range(len: u8, rot: u8) -> (u8, u8) {
+    let q = (len.clamp(1, 4) - 1 + rot) % 4;
+    (q * 0x40, q * 0x40 + 0x3F)
 }
 
-fn random_code(r: &mut Rng, len: u8) -> u32 {
-    let (a, b) = first_byte_range(len);
+fn random_code(r: &mut Rng, len: u8, rot: u8) -> u32 {
+    let (a, b) = first_byte_range(len, rot);
     let fb = a as u32 + r.below((b - a) as u64 + 1) as u32;
     let mut c = fb;
     for _ in 1..len {
@@ -118,10 +116,11 @@ pub fn gen_defs(r: &mut Rng) -> Vec<Def> {
         _ => vec![1, 2, 3, 4],
     };
     let n = 1 + r.usize_below(40);
+    let rot = r.below(4) as u8;
     let mut defs: Vec<Def> = vec![];
     for _ in 0..n {
         let len = *r.pick(&lens);
-        let (fa, fb) = first_byte_range(len);
+        let (fa, fb) = first_byte_range(len, rot);
         let lo_limit = (fa as u32) << (8 * (len as u32 - 1));
         let hi_limit = (((fb as u32) + 1) << (8 * (len as u32 - 1))).wrapping_sub(1).min(max_code(len));
         let kind = r.below(10);
@@ -143,11 +142,17 @@ pub fn gen_defs(r: &mut Rng) -> Vec<Def> {
                     _ => d.lo,
                 }
             } else {
-                random_code(r, len)
+                random_code(r, len, rot)
             }
         } else {
-            random_code(r, len)
+            random_code(r, len, rot)
         };
+        // a long code may consist of 00 bytes, a shorter mapped code and one more byte (<00417A> next to <41>)
+        if fa == 0 && r.chance(1, 3) {
+            if let Some(d) = defs.iter().find(|d| d.len + 2 <= len).cloned() {
+                lo = (d.lo << 8) | r.below(256) as u32;
+            }
+        }
         lo = lo.clamp(lo_limit, hi_limit);
         if let Some((t, room)) = reuse {
             match t {
@@ -259,7 +264,9 @@ pub fn render(defs: &[Def], r: &mut Rng) -> Vec<u8> {
     lens.dedup();
     s.push_str(&format!("{} begincodespacerange{}", lens.len(), eol));
     for l in &lens {
-        let (a, b) = first_byte_range(*l);
+        // (the quarter of first bytes this length uses is read off its definitions)
+        let q = defs.iter().find(|d| d.len == *l).map(|d| ((d.lo >> (8 * (*l as u32 - 1))) as u8) / 0x40).unwrap_or(0);
+        let (a, b) = (q * 0x40, q * 0x40 + 0x3F);
         let lo = (a as u32) << (8 * (*l as u32 - 1));
         let hi = ((((b as u64) + 1) << (8 * (*l as u64 - 1))) - 1) as u32;
         s.push_str(&format!("<{}>{}<{}>{}", hex_code(lo, *l, upper), if r.bool() { " " } else { "" }, hex_code(hi, *l, upper), eol));
